@@ -14,7 +14,10 @@ HERE = os.path.dirname(os.path.abspath(__file__))
 VERIF = os.path.dirname(HERE)
 
 
-def run_twins(repo, props, tier='quick', timeout=900):
+def run_twins(repo, props, tier='quick', timeout=None):
+    # every twin has its own watchdog inside twin.rs (300 s quick / 1800 s thorough); this outer limit only guards the build
+    if timeout is None:
+        timeout = 4500 if tier == 'quick' else 9000
     t0 = time.time()
     tmp = tempfile.mkdtemp(prefix='verif_twin_')
     try:
